@@ -129,6 +129,8 @@ def gen_steps(rng, types, nsteps):
             steps.append([[int(rng.integers(0, n))], val, 'single'])
         else:
             ks = [int(x) for x in rng.permutation(n)[:int(rng.integers(1, n + 1))]]
+            if rng.random() < 0.2:
+                ks = ks + [ks[0]] if rng.random() < 0.5 else [ks[0]] + ks          # a label repeated in the key list
             steps.append([ks, val, str(rng.choice(['list', 'tuple', 'list', 'tuple', 'generator', 'iterator', 'map', 'dict_keys']))])
         # the object the history continues on may be a copy of the one it started on (a forked System, a pickled job)
         steps[-1].append(str(rng.choice(['deepcopy', 'pickle'])) if rng.random() < 0.08 else '')
@@ -189,8 +191,22 @@ def run_case(ctx, case):
             ctx.hook('history_continues_on_a_copy')
         if k % 4 == 3:
             # a typo in a sweep: an assignment to an unknown label must not disturb anything derived for the declared types
-            for obj, name in ((rho, 'density'), (dia, 'diameter')):
+            for obj, name, model in ((rho, 'density', mr), (dia, 'diameter', md)):
                 ctx.hook('%s.refused_assignment' % name)
+                if k % 8 == 7:
+                    # the typo sits in a LIST key behind a valid label: whether the valid part takes effect or not is not specified, but
+                    # whatever the object then reports for that type is what every derived quantity must agree with
+                    t0 = types[int(ks[0]) % len(types)]
+                    try:
+                        obj[[t0, 'no_such_type_%d' % k]] = val
+                    except (ValueError, KeyError):
+                        pass
+                    got0 = obj[t0]
+                    if got0 is not None and got0 == val:
+                        model[t0] = val
+                    elif (t0 in model) != (got0 is not None) or (t0 in model and got0 != model[t0]):
+                        ctx.violation('%s:value' % name, 'step %d: after the refused assignment [[%r, unknown]]=%r, %s[%r] reads %r (neither the old value %r nor the new one)' % (k, t0, val, name, t0, got0, model.get(t0)))
+                    continue
                 try:
                     obj['no_such_type_%d' % k] = val        # may or may not be refused; either way the declared types must stay consistent
                 except (ValueError, KeyError):
